@@ -43,7 +43,7 @@ def showRes : SortRes → String
 
 def specAnswer (t : Spec.Table Int) (docids : List Int) (rev : Bool) (limit : Option Int)
     (st : Option SortType) (raiseU : Bool) : String :=
-  let nonEmptyIndex := (Spec.known t).any (fun d => Spec.sortable t d)
+  let nonEmptyIndex := Spec.nonEmptyIndex t
   if Spec.badLimit limit || (!docids.isEmpty && nonEmptyIndex && Spec.rejects rev limit st) then
     "err ValueError"
   else
